@@ -295,6 +295,11 @@ def gen(ctx):
             cases.append(_picked_case(rng, mode, ["tie-stream"], ties=True))
         else:
             cases.append(_picked_case(rng, mode, ["lower-case-column", "distinct-scores"], lower=True))
+    # row labels of the peptide table: every third case carries labels other than 0..n-1
+    for j, c in enumerate([c for c in cases if c["fn"] == "picked"]):
+        if j % 3 == 1:
+            c["index"] = ["perm", "offset", "reversed", "str"][(j // 3) % 4]
+            c["tags"] = c["tags"] + ["index-" + c["index"]]
     # ---- sanity errors / degenerate tables
     rng = ctx.sub("errors")
     for k in range(240 if ctx.thorough else 70):
@@ -394,9 +399,10 @@ def _proteins(c):
 class _Record:
     """records the two oracles while the real code runs"""
 
-    def __init__(self):
+    def __init__(self, pos=None):
         self.order = None
         self.dm = None
+        self.pos = pos          # row label -> row position, when the table does not carry the default 0..n-1 index
 
     def __enter__(self):
         import pandas as pd
@@ -409,7 +415,7 @@ class _Record:
         def sample(df, *a, **k):
             out = rec.orig_sample(df, *a, **k)
             if "decoy" in df.columns and k.get("frac", a[1] if len(a) > 1 else None) == 1:
-                rec.order = [int(v) for v in out.index]
+                rec.order = [int(v) if rec.pos is None else rec.pos[v] for v in out.index]
             return out
 
         def match(*a, **k):
@@ -439,6 +445,27 @@ def _canon_group(g):
     return str(g)
 
 
+def _index_labels(kind, n, seed):
+    """unique row labels for the peptide table handed to picked_protein (None: the default RangeIndex)"""
+    if not kind or kind == "range":
+        return None
+    import random
+    r = random.Random(seed)
+    if kind == "perm":
+        lab = list(range(n))
+        r.shuffle(lab)
+        return lab
+    if kind == "offset":
+        return [1000 + 3 * j for j in range(n)]
+    if kind == "reversed":
+        return list(range(n - 1, -1, -1))
+    if kind == "str":
+        lab = ["r%03d" % j for j in range(n)]
+        r.shuffle(lab)
+        return lab
+    raise ValueError(kind)
+
+
 def _run_picked(c):
     """-> dict(proteins=..., dm=..., order=..., result=('ok', entries) | ('err', kind))"""
     k = _key(c)
@@ -453,8 +480,14 @@ def _run_picked(c):
     df = pd.DataFrame({"tgt": np.array([bool(r[0]) for r in rows], dtype=bool),
                        "pepcol": pd.Series([r[1] for r in rows], dtype=object if not rows else None),
                        "sc": np.array([float(r[2]) for r in rows], dtype=float)})
+    # the caller's row labels: a peptide table that was sorted or filtered without reset_index keeps its old labels
+    labels = _index_labels(c.get("index"), len(rows), c["seed"])
+    pos = None
+    if labels is not None:
+        df.index = pd.Index(labels)
+        pos = {v: j for j, v in enumerate(labels)}
     np.random.seed(c["seed"] % (1 << 31))
-    with _Record() as rec:
+    with _Record(pos) as rec:
         def go():
             out = picked_protein(df, "tgt", "pepcol", "sc", P, np.random.default_rng(c["seed"]))
             ent = []
